@@ -238,34 +238,58 @@ func runC17(r *Run) {
 			f := r.Fn(idemPkg, fn)
 			ls := locksets(f, lockState{}, nil)
 			n := 0
-			for _, b := range f.Blocks {
-				for _, in := range b.Instrs {
-					touch := false
-					switch x := in.(type) {
-					case *ssa.Lookup:
-						touch = loadOfField(x.X, "idempotency.MemoryLock.keys")
-					case *ssa.MapUpdate:
-						touch = loadOfField(x.Map, "idempotency.MemoryLock.keys")
-					case *ssa.Call:
-						if calleeName(&x.Call) == "builtin:delete" {
-							touch = loadOfField(x.Call.Args[0], "idempotency.MemoryLock.keys")
+			// the function and the unexported helpers it calls (a critical section moved into a method of its own is
+			// analysed with its own lock operations; what the caller holds at the call counts as well)
+			type scope struct {
+				g          *ssa.Function
+				ls         *lockResult
+				callerHeld bool
+			}
+			scopes := []scope{{f, ls, false}}
+			for _, g := range helpersOf(f) {
+				held := true
+				sites := 0
+				for _, c := range callsIn(f, false) {
+					if c.Fn == f && c.Common.StaticCallee() == g {
+						sites++
+						if !ls.Before[c.Instr].holds("param:l.mu") {
+							held = false
 						}
 					}
-					if touch {
-						n++
-						r.check(ls.Before[in].holds("param:l.mu"), fmt.Sprintf("%s:keys-access#%d", fn, n), r.pos(in), "l.mu held", "the key map is accessed without l.mu")
-					}
-					// blocking on a key mutex under l.mu
-					if ci, ok := in.(ssa.CallInstruction); ok {
-						if op, ok := classifyLockCall(ci.Common()); ok && op.Acquire && op.ID != "param:l.mu" {
-							r.check(!ls.Before[in].holds("param:l.mu"), fn+":key-mutex-not-under-map-mutex", r.pos(in), "the per-key mutex is acquired after l.mu was dropped", "the per-key mutex is acquired while l.mu is held: one busy key blocks every other key")
+				}
+				scopes = append(scopes, scope{g, locksets(g, lockState{}, nil), held && sites > 0})
+			}
+			for _, sc := range scopes {
+				ls := sc.ls
+				for _, b := range sc.g.Blocks {
+					for _, in := range b.Instrs {
+						touch := false
+						switch x := in.(type) {
+						case *ssa.Lookup:
+							touch = loadOfField(x.X, "idempotency.MemoryLock.keys")
+						case *ssa.MapUpdate:
+							touch = loadOfField(x.Map, "idempotency.MemoryLock.keys")
+						case *ssa.Call:
+							if calleeName(&x.Call) == "builtin:delete" {
+								touch = loadOfField(x.Call.Args[0], "idempotency.MemoryLock.keys")
+							}
 						}
-					}
-					// counter writes under l.mu
-					if st, ok := in.(*ssa.Store); ok {
-						if fa, ok := st.Addr.(*ssa.FieldAddr); ok {
-							if fv := fieldVar(fa.X.Type(), fa.Field); fv != nil && fv.Name() == "locked" {
-								r.check(ls.Before[in].holds("param:l.mu"), fmt.Sprintf("%s:count-write@%s", fn, tokenOf(st)), r.pos(in), "waiter count changed under l.mu", "the waiter count is changed without l.mu")
+						if touch {
+							n++
+							r.check(sc.callerHeld || ls.Before[in].holds("param:l.mu"), fmt.Sprintf("%s:keys-access#%d", fn, n), r.pos(in), "l.mu held", "the key map is accessed without l.mu")
+						}
+						// blocking on a key mutex under l.mu
+						if ci, ok := in.(ssa.CallInstruction); ok {
+							if op, ok := classifyLockCall(ci.Common()); ok && op.Acquire && op.ID != "param:l.mu" {
+								r.check(!ls.Before[in].holds("param:l.mu"), fn+":key-mutex-not-under-map-mutex", r.pos(in), "the per-key mutex is acquired after l.mu was dropped", "the per-key mutex is acquired while l.mu is held: one busy key blocks every other key")
+							}
+						}
+						// counter writes under l.mu
+						if st, ok := in.(*ssa.Store); ok {
+							if fa, ok := st.Addr.(*ssa.FieldAddr); ok {
+								if fv := fieldVar(fa.X.Type(), fa.Field); fv != nil && fv.Name() == "locked" {
+									r.check(sc.callerHeld || ls.Before[in].holds("param:l.mu"), fmt.Sprintf("%s:count-write@%s", fn, tokenOf(st)), r.pos(in), "waiter count changed under l.mu", "the waiter count is changed without l.mu")
+								}
 							}
 						}
 					}
